@@ -438,7 +438,7 @@ func (g *gen) checkSigCase() {
 	if s.valid {
 		mut = drv.Pick(r, []string{"none", "none", "typ", "flat_same"})
 	}
-	t, m := g.buildToken(s, mut, c, evil, tok.PayloadOpts{ExtraKey: "ext", Reverse: r.Bool()})
+	t, m := g.buildToken(s, mut, c, evil, g.payloadOpts("ext"))
 	parsed := m.Bytes
 	ptag := "middle"
 	if m.Kind != "ok" { // hand CheckSignature the signed payload (or junk) as the parsed one
@@ -518,7 +518,7 @@ func (g *gen) verifyCase(kind string) {
 		v.Algs = g.allowList(class, s.alg)
 	}
 	now := time.Now().Unix()
-	opts := tok.PayloadOpts{ExtraKey: "ext", Reverse: r.Bool(), AudSingle: r.Bool()}
+	opts := g.payloadOpts("ext")
 	var c tok.Claims
 	claimMut := "none"
 	cm := r.IntN(100)
@@ -975,6 +975,179 @@ func (g *gen) verifySeqCase() {
 		Human: map[string]any{"issuer<-signer": who}})
 }
 
+// ---------------------------------------------------------------- provider options
+
+// customKeySet builds a caller-supplied key set around key (mostly containing it).
+func (g *gen) customKeySet(key *tok.Key, kid string) tok.KeySetDesc {
+	r := g.r
+	j := tok.JWK{Kid: kid, Use: drv.Pick(r, []string{"sig", ""}), Key: key}
+	switch r.IntN(4) {
+	case 0:
+		return tok.KeySetDesc{Kind: "static", Static: j}
+	case 1:
+		return tok.KeySetDesc{Kind: "remote", Served: []tok.JWK{j}}
+	default:
+		keys := []tok.JWK{j}
+		if r.Chance(1, 3) {
+			keys = append(keys, g.randomJWK(false))
+		}
+		return tok.KeySetDesc{Kind: "openid", Keys: keys}
+	}
+}
+
+// providerCase: op.NewProvider with WithAccessTokenKeySet / WithIDTokenHintKeySet /
+// WithAccessTokenVerifierOpts / WithIDTokenHintVerifierOpts each absent or present,
+// then the verifier the provider hands out for hints or access tokens on a token
+// signed by a key of the storage, of the access-token or of the hint key set.
+func (g *gen) providerCase() {
+	r := g.r
+	algPool := []string{"RS256", "PS256", "ES256", "EdDSA", "RS384", "PS512"} // families with two keys: the sets can differ
+	if r.Chance(1, 5) {
+		algPool = allAlgs
+	}
+	alg := drv.Pick(r, algPool)
+	fam := g.pool.ForAlg(alg)
+	kid := drv.Pick(r, []string{"k1", "k1", ""})
+	keyS := fam[0]
+	keyAT := fam[1%len(fam)]
+	keyH := fam[r.IntN(len(fam))]
+	if r.Bool() {
+		keyS, keyAT = keyAT, keyS
+	}
+	storage := []tok.JWK{{Kid: kid, Use: "sig", Key: keyS}}
+	if r.Chance(1, 4) {
+		storage = append(storage, g.randomJWK(false))
+	}
+	hint := r.Bool()
+	var atKS, hintKS *tok.KeySetDesc
+	if r.Bool() {
+		d := g.customKeySet(keyAT, kid)
+		atKS = &d
+	}
+	if r.Bool() {
+		d := g.customKeySet(keyH, kid)
+		hintKS = &d
+	}
+	list := func() ([]string, string) {
+		class := g.allowClass()
+		if r.Chance(2, 3) {
+			class = "with_alg"
+		}
+		return g.allowList(class, alg), class
+	}
+	atAlgs, atClass := list()
+	hintAlgs, hintClass := list()
+	setAT, setHint := r.Chance(3, 4), r.Chance(3, 4) // verifier options given at all?
+	if !setAT {
+		atAlgs, atClass = nil, "empty"
+	}
+	if !setHint {
+		hintAlgs, hintClass = nil, "empty"
+	}
+	// the token: signed by the key of one of the three sets
+	who := drv.Pick(r, []string{"storage", "at", "hint"})
+	signer := map[string]*tok.Key{"storage": keyS, "at": keyAT, "hint": keyH}[who]
+	now := time.Now().Unix()
+	c := tok.Claims{Iss: issuer, Sub: "user-1", Aud: []string{"client-a"}, Azp: "client-a", Exp: now + 3600, Iat: now - 10, ClientID: "client-a", Extra: fmt.Sprintf("p%d", r.IntN(10000))}
+	claimMut := "none"
+	switch x := r.IntN(20); {
+	case x < 2:
+		c.Exp, claimMut = now-3600, "expired"
+	case x < 3:
+		c.Iss, claimMut = "https://evil.example.com", "iss"
+	}
+	mut := "none"
+	if r.Chance(1, 8) {
+		mut = pickMutation(r, 30)
+	}
+	evil := c
+	evil.Sub = "attacker"
+	sc := &scenario{signer: signer, alg: alg, kid: kid}
+	t, m := g.buildToken(sc, mut, c, evil, g.payloadOpts("ext"))
+
+	var opts []op.Option
+	if atKS != nil {
+		opts = append(opts, op.WithAccessTokenKeySet(atKS.Build()))
+	}
+	if hintKS != nil {
+		opts = append(opts, op.WithIDTokenHintKeySet(hintKS.Build()))
+	}
+	if setAT {
+		opts = append(opts, op.WithAccessTokenVerifierOpts(op.WithSupportedAccessTokenSigningAlgorithms(atAlgs...)))
+	}
+	if setHint {
+		opts = append(opts, op.WithIDTokenHintVerifierOpts(op.WithSupportedIDTokenHintSigningAlgorithms(hintAlgs...)))
+	}
+	r.Shuffle(len(opts), func(i, j int) { opts[i], opts[j] = opts[j], opts[i] }) // option order must not matter
+	var obs string
+	var t0, t1 int64
+	pan := drv.Catch(func() {
+		prov, err := op.NewProvider(&op.Config{CryptoKey: [32]byte{1}}, &tok.FakeStorage{Keys: storage}, op.StaticIssuer(issuer), opts...)
+		if err != nil {
+			panic("NewProvider: " + err.Error())
+		}
+		ctx, cancel := context.WithTimeout(op.ContextWithIssuer(context.Background(), issuer), 5*time.Second)
+		defer cancel()
+		if hint {
+			vv := prov.IDTokenHintVerifier(ctx)
+			t0 = time.Now().UnixNano()
+			out, err := op.VerifyIDTokenHint[*oidc.IDTokenClaims](ctx, t.Raw, vv)
+			t1 = time.Now().UnixNano()
+			obs = idOutcome(out, err)
+		} else {
+			vv := prov.AccessTokenVerifier(ctx)
+			t0 = time.Now().UnixNano()
+			out, err := op.VerifyAccessToken[*oidc.AccessTokenClaims](ctx, t.Raw, vv)
+			t1 = time.Now().UnixNano()
+			if out != nil {
+				cl, a := tok.FromAccessToken(out)
+				obs = tok.Outcome(&cl, a, err)
+			} else {
+				obs = tok.Outcome(nil, "", err)
+			}
+		}
+	})
+	if pan != "" {
+		obs = "OPanic"
+	} else {
+		obs = emit.Ctor("OVerify", obs)
+	}
+	mc := c
+	if m.Kind == "ok" {
+		mc = m.C
+	}
+	if tok.TimeView(tok.VCfg{}, mc, t0) != tok.TimeView(tok.VCfg{}, mc, t1) {
+		g.amb++
+		return
+	}
+	optKS := func(d *tok.KeySetDesc) string {
+		if d == nil {
+			return emit.None
+		}
+		return emit.Some(d.Coq())
+	}
+	in := emit.Ctor("IProvider",
+		emit.Ctor("mkProvider", emit.Str(issuer), emit.Some(tok.JWKList(storage)), optKS(atKS), optKS(hintKS), emit.StrList(atAlgs), emit.StrList(hintAlgs)),
+		emit.Bool(hint), t.Coq(), m.Coq(), emit.Z(t0), emit.Z(t1))
+	g.w.Add(emit.Case{Input: in, Observed: obs,
+		Tags: []string{"kind=provider", fmt.Sprintf("verifier_hint=%v", hint), fmt.Sprintf("opt_at_keyset=%v", atKS != nil), fmt.Sprintf("opt_hint_keyset=%v", hintKS != nil),
+			fmt.Sprintf("opt_at_opts=%v", setAT), fmt.Sprintf("opt_hint_opts=%v", setHint), "allow_at=" + atClass, "allow_hint=" + hintClass, "signer=" + who, "alg=" + alg, "mut=" + mut, "claims=" + claimMut},
+		Human: map[string]any{"token": t.Raw, "signer": who, "hint": hint}})
+}
+
+// payloadOpts draws a byte form for the claims: member order, single-string aud,
+// whitespace between members and around the object, a shadowed duplicate member,
+// unicode escapes. All decode to the same claims.
+func (g *gen) payloadOpts(extraKey string) tok.PayloadOpts {
+	r := g.r
+	o := tok.PayloadOpts{ExtraKey: extraKey, Reverse: r.Bool(), AudSingle: r.Bool(), DupKey: r.Chance(1, 12), Escape: r.Chance(1, 10), Spaces: r.Chance(1, 10)}
+	if r.Chance(1, 6) {
+		o.Lead = drv.Pick(r, []string{"", " ", "\n"})
+		o.Trail = drv.Pick(r, []string{"\n", " ", "\r\n"})
+	}
+	return o
+}
+
 func idOutcome(out *oidc.IDTokenClaims, err error) string {
 	if out != nil {
 		cl, alg := tok.FromIDToken(out)
@@ -998,10 +1171,10 @@ func main() {
 	g.pool = tok.NewPool(g.r)
 	tok.SetWarm(g.pool)
 	g.w = emit.NewWriter(cfg.Out, "C02_spec", shardSize(cfg), cfg.Only)
-	n := cfg.Count(600, 15000)
+	n := cfg.Count(660, 16500)
 	kinds := []string{"rp", "at", "hint", "jwt", "ro"}
 	for i := 0; i < n; i++ {
-		switch i % 10 {
+		switch i % 11 {
 		case 0:
 			g.findCase()
 		case 1, 2:
@@ -1010,8 +1183,10 @@ func main() {
 			g.remoteSeqCase()
 		case 9:
 			g.verifySeqCase()
+		case 10:
+			g.providerCase()
 		default:
-			g.verifyCase(kinds[i%10-3])
+			g.verifyCase(kinds[i%11-3])
 		}
 	}
 	err := g.w.Close(emit.Meta{Property: "C02", Tier: cfg.Tier, Seed: cfg.Seed,
